@@ -565,6 +565,9 @@ def b_int(I, e, s, args, kw):
         I.need(not inf, "OverflowError", e, "int() of a float quotient that may be infinite", v.describe())
     if "str" in v.kinds and getattr(v, "norm_tag", False) != "digits":
         I.raise_("ValueError", e, "int(<str>)")
+    elif "str" in v.kinds:
+        # a string of ASCII digits of unbounded length: since Python 3.11 int() refuses more than sys.int_max_str_digits (4300)
+        I.raise_("ValueError", e, "int(<digit string of unbounded length>)")
     I.need(v.kinds <= frozenset(["int", "float", "bool", "str", "obj:Fraction", "opaque"]), "TypeError", e, "int() of %s" % norm(e)[:40], v.describe())
     return AV(["int"])
 
